@@ -69,7 +69,7 @@ impl M {
             p_i64: prim_shapes!(i64),
             p_i128: prim_shapes!(i128),
             max_digits,
-            max_scale: 600,
+            max_scale: 700,
             pruned: Arc::new(AtomicU64::new(0)),
         }
     }
@@ -191,12 +191,13 @@ impl M {
         if !rd.eq_val(&want) {
             return Err((want.show(), rd.show()));
         }
+        // results beyond the expansion bound are still observed (only their successors are not explored)
+        if let Err(m) = self.observe_ok(&r, &want) {
+            return Err((format!("comparisons/hashes of {} agree with its exact value", rd.show()), m));
+        }
         if ndigits(&rd.n) > self.max_digits || rd.s.abs() > self.max_scale as i128 {
             self.pruned.fetch_add(1, Relaxed);
             return Ok(None);
-        }
-        if let Err(m) = self.observe_ok(&r, &want) {
-            return Err((format!("comparisons/hashes of {} agree with its exact value", rd.show()), m));
         }
         Ok(Some((rd.n, rd.s as i64)))
     }
@@ -364,6 +365,8 @@ fn pool(tier: Tier) -> Vec<Dec> {
     p.push(Dec::new(3, 21));
     p.push(Dec::new(7, 259));
     p.push(Dec::new(0, 262));
+    // a gap at which the comparison's bit-length estimate is tight (10^643 lies just below a power of two)
+    p.push(Dec::new(0, 643));
     if tier.is_thorough() {
         p.push(Dec { n: pow10(19) + 1, s: 0 });
         p.push(Dec::new(5, 1));
@@ -412,7 +415,7 @@ fn main() {
     run.bound("pool", json!(m.pool.iter().map(|p| p.0.show()).collect::<Vec<_>>()));
     run.bound("actions_full_alphabet", full.len());
     run.bound("actions_core_alphabet", core.len());
-    run.bound("prune", "results with more than 40 digits or |scale| > 600 are not expanded (counted)");
+    run.bound("prune", "results with more than 40 digits or |scale| > 700 are checked and observed but not expanded (counted)");
     run.rule("explicit-state BFS over accumulator representations (int_val, scale): initial states = the operand pool; FULL alphabet = every decimal overload (30) x pool, every BigInt overload (36) x 6 integers, 32 primitive overloads x {u8,i64,i128} x 5 values, 12 unary/clone/re-scale operations, 3 sum forms x pool; CORE alphabet = one spelling per distinct implementation path; every transition runs the real overload on the accumulator rebuilt from the state pair and checks value, comparisons and hashes against the exact value; states merged exactly on the pair; non-trivial = distinct reachable representations beyond the initial ones");
     run.assume("same representation => same futures (the pair is the complete state of a BigDecimal), so merging is sound and each state is expanded at its minimal depth, i.e. with the largest remaining budget");
 
